@@ -63,3 +63,53 @@ package db
 //@   props C04 C07 C16
 //@   trusted
 //@   consttext "file:%s?_txlock=exclusive&_foreign_keys=on&_journal_mode=WAL"
+
+// ---- the transaction object's own bookkeeping (C07): callbacks registered for a rollback run exactly once each, in
+// registration order, and only after the SQL rollback succeeded; a commit runs only the commit callbacks, and only
+// after the SQL commit succeeded. cbRuns counts callback invocations (the callbacks themselves are the closures
+// proved where they are created, e.g. the append-only tree's undo).
+//@ ghost var cbRuns int
+//@ ghost var sqlCommits int
+//@ ghost var sqlRollbacks int
+//@ interface functype:func()@db.(*Tx).Rollback ()
+//@   modifies cbRuns
+//@   ensures cbRuns == old(cbRuns) + 1
+//@ interface functype:func()@db.(*Tx).Commit ()
+//@   modifies cbRuns
+//@   ensures cbRuns == old(cbRuns) + 1
+//@ interface github.com/agglayer/aggkit/db/types.SQLTxer.Commit@db.(*Tx).Commit (self)
+//@   modifies sqlCommits
+//@   ensures sqlCommits == old(sqlCommits) + 1
+//@ interface github.com/agglayer/aggkit/db/types.SQLTxer.Rollback@db.(*Tx).Rollback (self)
+//@   modifies sqlRollbacks
+//@   ensures sqlRollbacks == old(sqlRollbacks) + 1
+
+//@ func (s *Tx) AddRollbackCallback
+//@   props C07
+//@   requires s != nil
+//@   modifies s.rollbackCallbacks
+//@   ensures[registered-last] len(s.rollbackCallbacks) == old(len(s.rollbackCallbacks)) + 1 && len(s.commitCallbacks) == old(len(s.commitCallbacks))
+
+//@ func (s *Tx) AddCommitCallback
+//@   props C07
+//@   requires s != nil
+//@   modifies s.commitCallbacks
+//@   ensures[registered-last] len(s.commitCallbacks) == old(len(s.commitCallbacks)) + 1 && len(s.rollbackCallbacks) == old(len(s.rollbackCallbacks))
+
+//@ func (s *Tx) Rollback
+//@   props C07
+//@   requires s != nil && s.SQLTxer != nil
+//@   modifies cbRuns, sqlRollbacks
+//@   ensures[one-sql-rollback] sqlRollbacks == old(sqlRollbacks) + 1
+//@   ensures[every-undo-runs-once-after-a-successful-rollback] result == nil ==> cbRuns == old(cbRuns) + len(s.rollbackCallbacks)
+//@   ensures[failed-rollback-runs-nothing] result != nil ==> cbRuns == old(cbRuns)
+//@   loop 0 invariant 0 <= rangeindex + 1 && rangeindex + 1 <= len(s.rollbackCallbacks) && cbRuns == old(cbRuns) + rangeindex + 1 && sqlRollbacks == old(sqlRollbacks) + 1
+
+//@ func (s *Tx) Commit
+//@   props C07
+//@   requires s != nil && s.SQLTxer != nil
+//@   modifies cbRuns, sqlCommits
+//@   ensures[one-sql-commit] sqlCommits == old(sqlCommits) + 1
+//@   ensures[commit-callbacks-only-after-a-successful-commit] result == nil ==> cbRuns == old(cbRuns) + len(s.commitCallbacks)
+//@   ensures[failed-commit-runs-nothing] result != nil ==> cbRuns == old(cbRuns)
+//@   loop 0 invariant 0 <= rangeindex + 1 && rangeindex + 1 <= len(s.commitCallbacks) && cbRuns == old(cbRuns) + rangeindex + 1 && sqlCommits == old(sqlCommits) + 1
